@@ -1290,13 +1290,19 @@ func (s *sharedEntryAttributes) populateChoiceCaseResolvers(ctx context.Context)
 	if s.schema == nil {
 		return
 	}
+	// the stored content of all the acting owners (all the intents of the transaction) is about to be
+	// replaced, it is represented by the tree and must not be considered from the index.
+	excludeActingOwners := make([]CacheUpdateFilter, 0, len(s.treeContext.GetActualOwners()))
+	for _, owner := range s.treeContext.GetActualOwners() {
+		excludeActingOwners = append(excludeActingOwners, CacheUpdateFilterExcludeOwner(owner))
+	}
 	// if choice/cases exist, process it
 	for _, choiceResolver := range s.choicesResolvers {
 		for _, elem := range choiceResolver.GetElementNames() {
 			isNew := false
 			var val2 *int32
 			// Query the Index, stored in the treeContext for the per branch highes precedence
-			v := s.treeContext.GetTreeSchemaCacheClient().GetBranchesHighesPrecedence(ctx, append(s.Path(), elem), CacheUpdateFilterExcludeOwner(s.treeContext.GetActualOwner()))
+			v := s.treeContext.GetTreeSchemaCacheClient().GetBranchesHighesPrecedence(ctx, append(s.Path(), elem), excludeActingOwners...)
 
 			child, childExists := s.childs.GetEntry(elem)
 			// set the value from the tree as well
